@@ -89,6 +89,33 @@ func genCases(seed int64, n, length int, scale string, multi bool, features stri
 			cases[i] = c
 			continue
 		}
+		if features == "blocks" {
+			// C34: two ledgers with HASH_LOGS=ASYNC in one bucket (and a third without, which must get no
+			// block); the block builder runs at random points with random maximal block sizes, and at the end
+			async := map[string]string{"HASH_LOGS": "ASYNC"}
+			gens := map[string]*drive.Gen{"l1": g, "l2": drive.NewGen(cs+7, "l2"), "l3": drive.NewGen(cs+13, "l3")}
+			steps := map[string]int{}
+			pick := drive.NewGen(cs+29, "pick")
+			names := []string{"l1", "l2", "l3"}
+			for k := 0; k < length; k++ {
+				if pick.R.Intn(4) == 0 {
+					c.Ops = append(c.Ops, drive.Op{K: "blocks", L: "l1", ID: []int{1, 2, 3, 100}[pick.R.Intn(4)]})
+					continue
+				}
+				ln := names[pick.R.Intn(len(names))]
+				op := gens[ln].Next(steps[ln])
+				steps[ln]++
+				op.Now = 1 + k/2
+				if op.Ts > 9 {
+					op.Ts = 9
+				}
+				c.Ops = append(c.Ops, op)
+			}
+			c.Ops = append(c.Ops, drive.Op{K: "blocks", L: "l1", ID: []int{1, 2, 100}[i%3]})
+			c.Ledgers = []drive.CaseLedger{{Name: "l1", Bucket: "b1", Features: async}, {Name: "l2", Bucket: "b1", Features: async}, {Name: "l3", Bucket: "b1"}}
+			cases[i] = c
+			continue
+		}
 		if features == "impexp" {
 			// export l1, import into l2 (same or other bucket), then write on the copy through every API path
 			src := g.History(length)
